@@ -88,3 +88,20 @@ register("C09", "exploration",
          "Bounded: unroll/sequential_unroll are simulated for every initial state and input sequence and compared, io by io and step by step, with iterated execution of the original circuit (cycle-accurate for flop blackboxes); free inputs and outputs of the unrolled circuit must be exactly those the property names.",
          "oracle = iterated vlib.oracle.simulate; scope in evidence.bound",
          explanation="bounded stand-in of the unroll contracts")
+
+register("C06", "exploration",
+         "Bounded: the result of add_subcircuit / add_blackbox+fill_blackbox / strip_blackboxes is compared (node set, io lists, registry, and the full set of consistent valuations) with the composite built independently from the property statement.",
+         "oracle = independently built composite + vlib.sem.refines; scope in evidence.bound",
+         explanation="bounded stand-in of the composition contracts")
+register("C11", "exploration",
+         "Bounded: sat / dif_out / sen_out of the two transforms and the values of sensitize, sensitivity, influence(exact), avg_sensitivity are compared with an independent evaluator that inverts n (or a startpoint) under every valuation.",
+         "oracle = independent forced-inversion evaluator; pysat shim trusted; scope in evidence.bound",
+         explanation="bounded stand-in of the sensitivity contracts")
+register("C17", "exploration",
+         "Bounded only (dominator reasoning is outside what the verifier built here can carry): the supergate contract (single output, topological order, cover of the cone, wiring identical to limit_fanin(c,2), pairwise disjoint input cones, refilled super-circuit equivalent) is checked at run time.",
+         "limit_fanin(c,2) is re-run by the check and assumed to pick the same grouping inside supergates (checked: two runs agree, else wiring clauses are skipped)",
+         explanation="bounded stand-in of the supergates contract; 0 obligations proved")
+register("C18", "exploration",
+         "Bounded: acyclic_unroll output is acyclic, lint-clean, same outputs, inputs = original + one aux per cut node; for every input valuation and every brute-force fixed point of the cyclic circuit the unrolled outputs equal the stable values.",
+         "oracle = brute-force fixed points (vlib.oracle); aux input <-> feedback node by the name c0_aux_in_<f>; scope in evidence.bound",
+         explanation="bounded stand-in of the acyclic_unroll contract")
